@@ -257,18 +257,20 @@ def oracle_dtypes_reorient(ck: Check, tier):
         mask = (True,) * 4
         ck.count(("S.dtype", np.dtype(dt).name, axname), suite="S.oracle")
         rep = dict(shape=[r, c], dtype=np.dtype(dt).name, symmetry_axis=repr(axis), image=im.tolist())
-        sig = dict(site="get_image_quadrants", method="average", axis_form=axname)
-        try:
-            _, S = _impl_sym(im, axis, mask, "average")
-        except Exception as e:
-            ck.violation(dict(sig, clause="exception"), rep, f"unexpected {type(e).__name__}: {e}")
-            continue
-        ref = ref_symmetrise(im.astype(np.float64), code, mask) if code else im.astype(np.float64)
-        tol = 1e-6 * max(1.0, np.abs(ref).max()) if dt is np.float32 else 1e-12 * max(1.0, np.abs(ref).max())
-        if np.shape(S) != ref.shape or np.abs(np.asarray(S, float) - ref).max() > tol:
-            ck.violation(dict(sig, clause="mean-integer-image"), rep,
-                         f"{np.dtype(dt).name} image: result is not the mean of the image and its mirror image(s) "
-                         f"(off by {np.abs(np.asarray(S, float) - ref).max() if np.shape(S) == ref.shape else 'shape'})")
+        for method in ("average", "fourier"):          # (with every quadrant enabled both are the mirror average, C06 `fourier_eq_average`)
+            sig = dict(site="get_image_quadrants", method=method, axis_form=axname)
+            ck.count(("S.dtype", np.dtype(dt).name, axname, method), suite="S.oracle")
+            try:
+                _, S = _impl_sym(im, axis, mask, method)
+            except Exception as e:
+                ck.violation(dict(sig, clause="exception"), dict(rep, method=method), f"unexpected {type(e).__name__}: {e}")
+                continue
+            ref = ref_symmetrise(im.astype(np.float64), code, mask) if code else im.astype(np.float64)
+            tol = 1e-6 * max(1.0, np.abs(ref).max()) if dt is np.float32 else (1e-12 if method == "average" else 1e-9) * max(1.0, np.abs(ref).max())
+            if np.shape(S) != ref.shape or np.abs(np.asarray(S, float) - ref).max() > tol:
+                ck.violation(dict(sig, clause="mean-integer-image"), dict(rep, method=method),
+                             f"{np.dtype(dt).name} image, {method!r}: result is not the mean of the image and its mirror image(s) "
+                             f"(off by {np.abs(np.asarray(S, float) - ref).max() if np.shape(S) == ref.shape else 'shape'})")
     for (r, c) in [(2, 2), (3, 4), (4, 3), (5, 5), (6, 7)]:
         im = rng.normal(size=(r, c))
         nr, nc = r // 2 + r % 2, c // 2 + c % 2
